@@ -30,6 +30,10 @@ def main():
     meta = dict(mod.META)
     allc = {c.name: c for t in ("thorough", "quick") for c in mod.cases(t)}
     meta["all_cases"] = list(allc.values())
+    if core.REPO != "/repo":
+        # runs against a scratch tree (seeded-change evaluation) never touch the evidence of the real check
+        core.EVID = os.path.join(core.WORK, "alt-evidence")
+        core.WORK = os.path.join(core.WORK, "alt-" + os.path.basename(core.REPO.rstrip("/")))
     if a.case:
         cases = [c for c in cases if any(x in c.name for x in a.case)]
         # partial runs never overwrite evidence of the full check
